@@ -32,7 +32,11 @@
    the theorems that need it): a KeyUpdate whose message_seq is ahead of the expected one is only
    acknowledged (the code also keeps it in the fragment buffer), and a KeyUpdate with the expected
    message_seq under a non-current epoch makes the side [failed] (the code answers with a fatal alert
-   and keeps re-reading the same cached message); handshake/ACK content of PARKED records is ignored.
+   and stops its post-handshake state machine with ErrUnexpectedPostHandshakeMessage); handshake/ACK
+   content of PARKED records is ignored.
+   What an off-path sender can leave behind DURING the handshake is part of [config]: [c_shadow] (see
+   [on_ku]).  The theorems hold for [no_shadow] configurations; Ku/C20KeyUpdateSound.v
+   [shadowed_keyupdate_refuted] is the witness that they fail otherwise (known finding K-C20-1).
    The model starts from an established connection (application epoch 3 on both sides, the server's
    NewSessionTicket flight acknowledged); [config] carries what establishment left behind. *)
 From Coq Require Import List NArith Bool.
@@ -100,7 +104,9 @@ Record sidest := mkside {
   wins : N -> win;               (* ReplayDetector[epoch]; latest = RemoteSequenceNumber[epoch] *)
   futq : list rec;               (* encryptedPackets: parked future-epoch datagrams *)
   seen : list (N * N);           (* ghost: accepted record numbers, newest first *)
-  got : list (N * N * N)         (* ghost: (epoch, seq, payload) handed to Read, newest first *)
+  got : list (N * N * N);        (* ghost: (epoch, seq, payload) handed to Read, newest first *)
+  shadow : list N                (* message numbers for which an UNAUTHENTICATED fragment was left in the
+                                    reassembly buffer during the handshake (never changes; see on_ku) *)
 }.
 
 Inductive event :=
@@ -116,19 +122,19 @@ Inductive event :=
 
 Definition set_failed (s : sidest) : sidest :=
   mkside true (w_epoch s) (w_sec s) (w_seq s) (hs_send s) (pending s) (queue s) (r_epoch s) (r_gens s)
-         (hs_recv s) (wins s) (futq s) (seen s) (got s).
+         (hs_recv s) (wins s) (futq s) (seen s) (got s) (shadow s).
 Definition set_wseq (s : sidest) (q : N) : sidest :=
   mkside (failed s) (w_epoch s) (w_sec s) q (hs_send s) (pending s) (queue s) (r_epoch s) (r_gens s)
-         (hs_recv s) (wins s) (futq s) (seen s) (got s).
+         (hs_recv s) (wins s) (futq s) (seen s) (got s) (shadow s).
 Definition set_queue (s : sidest) (q : list cmd) : sidest :=
   mkside (failed s) (w_epoch s) (w_sec s) (w_seq s) (hs_send s) (pending s) q (r_epoch s) (r_gens s)
-         (hs_recv s) (wins s) (futq s) (seen s) (got s).
+         (hs_recv s) (wins s) (futq s) (seen s) (got s) (shadow s).
 Definition set_pending (s : sidest) (p : option flight) : sidest :=
   mkside (failed s) (w_epoch s) (w_sec s) (w_seq s) (hs_send s) p (queue s) (r_epoch s) (r_gens s)
-         (hs_recv s) (wins s) (futq s) (seen s) (got s).
+         (hs_recv s) (wins s) (futq s) (seen s) (got s) (shadow s).
 Definition set_futq (s : sidest) (q : list rec) : sidest :=
   mkside (failed s) (w_epoch s) (w_sec s) (w_seq s) (hs_send s) (pending s) (queue s) (r_epoch s) (r_gens s)
-         (hs_recv s) (wins s) q (seen s) (got s).
+         (hs_recv s) (wins s) q (seen s) (got s) (shadow s).
 
 (* ---------- sending ---------- *)
 
@@ -164,7 +170,7 @@ Definition start_ku (me : side) (s : sidest) (req : bool) (id : option N) : side
     let m := hs_send s in
     let q := w_seq s in
     (mkside (failed s) (w_epoch s) (w_sec s) (q + 1) (m + 1) (Some (mkflight m req id [q])) (queue s)
-            (r_epoch s) (r_gens s) (hs_recv s) (wins s) (futq s) (seen s) (got s),
+            (r_epoch s) (r_gens s) (hs_recv s) (wins s) (futq s) (seen s) (got s) (shadow s),
      EvSent me (w_epoch s) (mkrec (w_sec s) (low2 (w_epoch s)) q (KU m req))
        :: match id with Some i => [EvStart me i m] | None => [] end).
 
@@ -237,11 +243,11 @@ Definition mark (s : sidest) (e q : N) : sidest :=
   let w' := fst (accept max_seq64 (wins s e) q) in
   mkside (failed s) (w_epoch s) (w_sec s) (w_seq s) (hs_send s) (pending s) (queue s) (r_epoch s)
          (r_gens s) (hs_recv s) (fun x => if x =? e then w' else wins s x) (futq s)
-         ((e, q) :: seen s) (got s).
+         ((e, q) :: seen s) (got s) (shadow s).
 
 Definition add_got (s : sidest) (e q p : N) : sidest :=
   mkside (failed s) (w_epoch s) (w_sec s) (w_seq s) (hs_send s) (pending s) (queue s) (r_epoch s)
-         (r_gens s) (hs_recv s) (wins s) (futq s) (seen s) ((e, q, p) :: got s).
+         (r_gens s) (hs_recv s) (wins s) (futq s) (seen s) ((e, q, p) :: got s) (shadow s).
 
 (* handleQueuedPackets: a parked datagram is opened with the generations now authorised; never parked
    again; only application data has an effect here (see header) *)
@@ -280,7 +286,7 @@ Definition acked (s : sidest) (f : flight) (l : list (N * N)) : bool :=
 
 Definition commit (me : side) (s : sidest) (f : flight) : sidest * list event :=
   (mkside (failed s) (w_epoch s + 1) (Next (w_sec s)) 0 (hs_send s) None (queue s) (r_epoch s)
-          (r_gens s) (hs_recv s) (wins s) (futq s) (seen s) (got s),
+          (r_gens s) (hs_recv s) (wins s) (futq s) (seen s) (got s) (shadow s),
    EvCommit me (w_epoch s + 1) :: match f_id f with Some i => [EvDone me i] | None => [] end).
 
 Definition on_ack (me : side) (s : sidest) (l : list (N * N)) : sidest * list event :=
@@ -296,7 +302,7 @@ Definition advance_read (me : side) (s : sidest) (m : N) (req : bool) : sidest *
       let s1 := mkside (failed s) (w_epoch s) (w_sec s) (w_seq s) (hs_send s) (pending s)
                        (if req then insert_response (queue s) else queue s)
                        (r_epoch s + 1) (mkgen (r_epoch s + 1) (Next (g_sec cur)) :: r_gens s)
-                       (hs_recv s + 1) (wins s) [] (seen s) (got s) in
+                       (hs_recv s + 1) (wins s) [] (seen s) (got s) (shadow s) in
       let '(s2, e2) := recv_parked_all me s1 (futq s) in
       (s2, EvKuIn me m :: e2)
   | [] => (set_failed s, [EvFail me])
@@ -305,7 +311,9 @@ Definition advance_read (me : side) (s : sidest) (m : N) (req : bool) : sidest *
 Definition send_ack (me : side) (s : sidest) (l : list (N * N)) : sidest * list event :=
   let '(s1, evs, _) := emit_ctl me s (Ack l) in (s1, evs).
 
-Definition on_ku (me : side) (s : sidest) (e q m : N) (req : bool) : sidest * list event :=
+(* the message is the expected one or not, nothing was planted: the reassembly buffer hands over
+   exactly what the peer sent *)
+Definition on_ku0 (me : side) (s : sidest) (e q m : N) (req : bool) : sidest * list event :=
   if m <? hs_recv s then send_ack me s [(e, q)]            (* retransmission of a processed message *)
   else if m =? hs_recv s then
     let cur_ok := match r_gens s with g :: _ => g_epoch g =? e | [] => false end in
@@ -317,6 +325,21 @@ Definition on_ku (me : side) (s : sidest) (e q m : N) (req : bool) : sidest * li
       else if max_msg <? hs_recv s1 then (set_failed s1, e1 ++ [EvFail me])  (* ErrHandshakeSequenceOverflow *)
       else let '(s2, e2) := send_ack me s1 [(e, q)] in (s2, e1 ++ e2)
   else send_ack me s [(e, q)].                              (* ahead of the expected message *)
+
+(* AS CODED (known finding K-C20-1): the reassembly buffer (internal/fragmentbuffer) is keyed by
+   message_seq only and takes fragments from unprotected epoch-0 records while the handshake runs.
+   A fragment planted under number m (> the number of the peer's first post-handshake message) stays
+   there.  Complete: when message m-1 has been assembled Pop also returns the planted message m
+   (dropped by bufferHandshakeRecord: established && epoch 0) and the buffer's sequence moves to m+1;
+   the genuine message m is then "a fragment of an already assembled message".  Incomplete (declares a
+   longer message): the slot of offset 0 is taken, the genuine fragment is not stored and message m is
+   never assembled.  Either way the record that carries the genuine KeyUpdate m is put on the list of
+   records to acknowledge (conn.go pendingACKs) and nothing else happens: HandshakeRecvSequence stays
+   m for ever, so every later KeyUpdate of the peer is "ahead" and only acknowledged as well. *)
+Definition shadowed (s : sidest) (m : N) : bool := existsb (N.eqb m) (shadow s).
+
+Definition on_ku (me : side) (s : sidest) (e q m : N) (req : bool) : sidest * list event :=
+  if shadowed s m then send_ack me s [(e, q)] else on_ku0 me s e q m req.
 
 (* one datagram (= one record after the handshake) arriving at side [me] *)
 Definition recv (me : side) (s : sidest) (r : rec) : sidest * list event :=
@@ -407,8 +430,13 @@ Record config := mkcfg {
   c_window : nat;             (* replay window (conn.replayProtectionWindow) *)
   c_base : side -> N;         (* HandshakeSendSequence of each side when the model starts *)
   c_wseq : side -> N;         (* epoch-3 records each side already emitted *)
-  c_pre : side -> list N      (* epoch-3 sequence numbers each side already received, in arrival order *)
+  c_pre : side -> list N;     (* epoch-3 sequence numbers each side already received, in arrival order *)
+  c_shadow : side -> list N   (* message numbers (> c_base of the peer) planted in each side's reassembly
+                                 buffer by an off-path sender during the handshake *)
 }.
+
+(* nobody interfered with the handshake *)
+Definition no_shadow (c : config) : Prop := forall s, c_shadow c s = [].
 
 (* epochs 3+n-1 ... 3, then the handshake generation *)
 Fixpoint gens_down_from (s : side) (n : nat) : list gen :=
@@ -425,6 +453,6 @@ Definition init_side (c : config) (me : side) : sidest :=
   mkside false 3 (Init me) (c_wseq c me) (c_base c me) None []
          3 (gens_down (other me) 3) (c_base c (other me))
          (fun e => if e =? 3 then fst wr else win_init (c_window c))
-         [] (map (fun q => (3, q)) (rev (snd wr))) [].
+         [] (map (fun q => (3, q)) (rev (snd wr))) [] (c_shadow c me).
 
 Definition init (c : config) : gst := mkgst (init_side c) (fun _ => []).
